@@ -110,6 +110,11 @@ def gen_case(rng):
                 forces.append(['FParticleScalar', {'species': s, 'scalar': nm, 'expression': rng.choice(['1', '0.5', '(0-2)'])}])
             else:
                 forces.append(['FParticleVector', {'species': s, 'vector': nm, 'expression': 'uVecX(%s)' % rng.choice(['1', '0.25'])}])
+    # a persistent scalar that a Symbol post-processes in place (`overwrite="yes"`, identity expression; stage 0, 1 or both):
+    # its column must still be read back (only symbols that a calculator CREATES itself are skipped by the reader)
+    for (s, kind, nm) in specs:
+        if kind == 'S' and rng.random() < 0.3:
+            modules.append(['ParticleScalar', {'species': s, 'symbol': nm, 'overwrite': 'yes', 'stage': rng.choice(['0', '0', '1', '2']), 'expression': nm}])
     rng.shuffle(integrators)
     # the tag-format order is the integrators' setup order
     quantities = {s: [] for s in names}
